@@ -140,10 +140,52 @@ def run(ctx):
     rep.rule('R11.5', 'strategy arguments are only passed through or used in those decisions')
     rep.assumptions = ['sort itself is strategy independent (C05)', 'callee resolution']
     rep.trusted = ['resolver', 'decision-table extractor (dtable.py)']
-    r111(ctx, rep)
-    r112(ctx, rep)
-    r113(ctx, rep)
-    r114(ctx, rep)
+    ctx.attempt(r111, ctx, rep)
+    ctx.attempt(r112, ctx, rep)
+    ctx.attempt(r113, ctx, rep)
+    ctx.attempt(r114, ctx, rep)
+    rep.rule('R11.6', 'the sort is the same function of its input for every buffer size: exhaustion test, run / merge agreement and stable merge (C05 R5.1-R5.3 imported)')
+    ctx.attempt(r116, ctx, rep)
+    rep.rule('R11.7', 'rows that went through a spilled sort are copies (pickle): no operator compares a cell with a caller-supplied value by identity (C12 R12.11 imported)')
+    ctx.attempt(r117, ctx, rep)
+
+
+def r116(ctx, rep):
+    from . import c05
+    from ..report import Report
+    sub = Report('C05', ctx.tier, ctx.root)
+    saved = ctx.report
+    ctx.report = sub
+    try:
+        sv = ctx.project.need_class('petl.transform.sorts:SortView')
+        nc = ctx.project.need_fn('petl.transform.sorts:SortView._iternocache')
+        c05.r51(ctx, sub, nc)
+        c05.r52(ctx, sub, sv, nc)
+        c05.r53(ctx, sub)
+    finally:
+        ctx.report = saved
+    n = 0
+    for o in sub.obligations:
+        n += 1
+        rep.add('R11.6', (o.module, o.qualname), '%s: %s' % (o.rule, o.construct), o.status, o.message, o.lineno, o.detail)
+    if n < 8:
+        raise AnalysisError('anchor vanished: only %d obligations about the buffering of sort' % n)
+
+
+def r117(ctx, rep):
+    from . import c12
+    from ..report import Report
+    sub = Report('C12', ctx.tier, ctx.root)
+    saved = ctx.report
+    ctx.report = sub
+    try:
+        c12.r1211(ctx, sub)
+    finally:
+        ctx.report = saved
+    for o in sub.obligations:
+        rep.add('R11.7', (o.module, o.qualname), o.construct, o.status,
+                (o.message + ' -- after a spilled sort (small buffersize) every cell is a copy, so the result depends on the '
+                 'buffer size') if o.status == 'violated' else o.message, o.lineno, o.detail)
 
 
 # ----------------------------------------------------------------------- R11.1
@@ -451,9 +493,7 @@ def _ctor_presorted(ctx, rep, ti, init):
     tparams = [p for p in ti.ctor_table_params(init)]
     sorted_when_false = False
     for val, oc in rows:
-        sorts = []
-        for s in oc.effects:
-            sorts.extend((s, c) for c in _sort_calls(ctx, init, s))
+        sorts = _effect_sort_apps(ctx, init, oc.effects)
         if val['presorted']:
             if sorts:
                 rep.violated('R11.3', init, 'presorted=True: %s' % norm(sorts[0][1]),
@@ -465,13 +505,9 @@ def _ctor_presorted(ctx, rep, ti, init):
             sorted_when_false = True
             for stmt, call in sorts:
                 # key consistency
-                tnode = call.args[0] if call.args else None
-                knode = None
-                if len(call.args) > 1:
-                    knode = call.args[1]
-                for k in call.keywords:
-                    if k.arg == 'key':
-                        knode = k.value
+                app = call.app
+                tnode = app.over if app.over is not None else app.table
+                knode = app.args.get('key')
                 tname = None
                 if tnode is not None:
                     for n in ast.walk(tnode):
@@ -511,6 +547,41 @@ def _ctor_presorted(ctx, rep, ti, init):
         rep.undecided('R11.3', init, 'presorted ladder', 'no valuation', init.node)
 
 
+def _effect_sort_apps(ctx, init, effects):
+    """[(statement, expression node)] of the sort applications one valuation executes, whatever their spelling
+    (sort(...), SortView(...), functools.partial(sort, ...), **options, comprehensions, map); the node carries the
+    SortApp as `.app`.  Locals are looked through, the same application reached through an alias is counted once."""
+    from .sortapp import sort_applications, sort_application
+    from ..ladder import resolve, unroll
+    out = []
+    seen = set()
+    for i, s in enumerate(effects):
+        if isinstance(s, ast.Assign):
+            val = resolve(s.value, effects[:i])
+            parts = unroll(val)
+            apps = []
+            for part in (parts if parts is not None else [val]):
+                apps.extend(sort_applications(ctx, init, part))
+        elif isinstance(s, (ast.For, ast.While, ast.With, ast.FunctionDef, ast.ClassDef)):
+            apps = sort_applications(ctx, init, s)
+        else:
+            apps = sort_applications(ctx, init, s)
+        for app in apps:
+            k = norm(app.node)
+            if k in seen:
+                continue
+            seen.add(k)
+            node = app.node
+            try:
+                node.app = app
+            except AttributeError:
+                continue
+            if not hasattr(node, 'lineno'):
+                ast.copy_location(node, s)
+            out.append((s, node))
+    return out
+
+
 class _Subst(ast.NodeTransformer):
     def __init__(self, env):
         self.env = env
@@ -537,10 +608,22 @@ def _final_attrs(effects):
             for t, v in zip(s.targets[0].elts, vals):
                 if isinstance(t, (ast.Name, ast.Attribute)):
                     env[norm(t)] = v
+        elif isinstance(s, ast.Assign) and len(s.targets) == 1 and isinstance(s.targets[0], (ast.Tuple, ast.List)):
+            # a, b = <sequence whose elements are visible in the source> (a list display, a comprehension over zip(...))
+            from ..ladder import unroll
+            vals = unroll(_Subst(env).visit(copy.deepcopy(s.value)))
+            if vals is not None and len(vals) == len(s.targets[0].elts):
+                for t, v in zip(s.targets[0].elts, vals):
+                    if isinstance(t, (ast.Name, ast.Attribute)):
+                        env[norm(t)] = v
     return {k: v for k, v in env.items() if k.startswith('self.')}
 
 
 def _strip_sort(ctx, init, e):
+    from .sortapp import strip_sort
+    e2 = strip_sort(ctx, init, e)
+    if e2 is not e:
+        return e2
     while isinstance(e, ast.Call) and e.args and any(g.fq in SORT_FQ for g, b in _callee_fns(ctx, init, e)):
         e = e.args[0]
     if isinstance(e, (ast.ListComp, ast.GeneratorExp)) and len(e.generators) == 1 and not e.generators[0].ifs:
